@@ -189,19 +189,22 @@ def run(tier: str, seed: int) -> int:
             run_case(r, deps, clients, status, label, raw)
     r.samples = [{"status": s, "body": b.decode("latin-1"), "expected": expected(s, b)[0]} for s, (l, b) in
                  [(200, bodies[0]), (200, bodies[20]), (301, bodies[25]), (200, bodies[-1]), (500, bodies[-1])]]
-    try:
-        from . import c12_gen
-        c12_gen.run_part(r, tier, seed)
-    except ImportError:
-        pass
+    from . import c12_gen
+    c12_gen.run_part(r, tier, seed)
     r.exhaustive = True
-    r.floors = {"outcome.http": 100, "outcome.invalid": 50, "outcome.multi": 50, "outcome.data": 50}
+    r.floors.update({"outcome.http": 100, "outcome.invalid": 50, "outcome.multi": 50, "outcome.data": 50})
     return r.finish()
 
 
 def replay(data) -> int:
     deps = load_deps()
     case = data["case"]
+    if case.get("kind") == "generated":
+        from . import c12_gen
+        res = core.run_forked([case], c12_gen.worker)[0]
+        for v in res.violations:
+            print(v["detail"][:800])
+        return 1 if res.violations else 0
     r = core.Run(PROP, "quick", 0, level="fault_enumeration")
     clients = make_clients(deps)
     run_case(r, deps, clients, case["status"], "replay", case["body"].encode("latin-1"))
